@@ -30,12 +30,12 @@ from bounded.common import JOBS, bitem, chunked, pmap
 PROP = 'C20'
 INDEP_SGR = re.compile(r'\x1b\[[0-9;]*m')
 ESC = '\x1b'
-TEXT_ALPHA = ('a', '{', '}', ':', '世', '́', ' ', '\\', "'", '[', 'm', '1', ';', '\n')
-UNSAFE = set('{}:\\\'"') | {chr(c) for c in range(32)} | {'\x7f'}
+TEXT_ALPHA = ('a', '{', '}', ':', '世', '́', ' ', '\\', "'", '[', 'm', '1', ';', '\n', '\x9b')  # U+009B: the 8-bit CSI, an ordinary character of a python str
+UNSAFE = set('{}:\\\'"') | {chr(c) for c in range(32)} | {chr(c) for c in range(0x7f, 0xa0)}  # braces, colons, backslashes, quotes, control characters (C0, DEL, C1)
 MODS = ('bold', 'dim', 'italic', 'underline', 'blink', 'inverse', 'hidden', 'strikethrough')
 SPECS_ALL = ['', '5', '>5', '<5', '^5', '*^7', '0>4', '.1', '.2', '.0', '6.2', '>6.1', 'x<4.0', '1', '{<5', '}>4', ':>4', '世^5', ' >3',
              's', '5s', '^', '>', '<', '10', '^10.3', '-<6', '́>3']
-OWN_FMTS = [None, '>5', '^7', '.1', '*<4.2']
+OWN_FMTS = [None, '>5', '^7', '.1', '*<4.2', ':>4']  # ':>4': the fill character is a colon (the repr form f{text:spec} then has two)
 # (label, explicit enable, env)  -- expected `enabled` by the documented priority
 MODES = [
     ('explicit-on', True, {}), ('explicit-off', False, {}),
